@@ -119,6 +119,14 @@ def depReady (n d : Nat) (started : List Nat) (k : Nat) : Bool :=
 
 /-! ### `seq_try_join_all`: `try_collect` over the stream (source = `iter(..)`, always ready) -/
 
+/-- `seq_try_join_all(active, source)` = `seq_join(active, iter(source)).try_collect()` and
+`SeqJoin::try_join(iterable)` = `seq_try_join_all(self.active_work(), iterable)`: the initial state of
+the join over an iterator of `n` tasks whose `size_hint()` lower bound is `sizeHintLower`.
+The window (`VecDeque::with_capacity(active)`) is taken from `active` ONLY — the iterator's
+`size_hint` (0 for `filter` / `flat_map` / `take_while`, `k` for `chain(exact k, filtered)`) is never
+consulted, so the argument is unused on purpose. -/
+def seqTryJoinAllNew (active n : Nat) (_sizeHintLower : Nat) : State := State.new n active
+
 inductive TryOut where
   | pending
   | ok (ids : List Nat)
